@@ -577,6 +577,41 @@ func (sc *SpecCtx) call(e *Expr) Value {
 		a, i := sc.eval(e.Args[0]), sc.eval(e.Args[1])
 		h := st.heapTermIn(sc.cur, "elem:uint8", 2, "Int")
 		return intV("(select (select " + h + " " + a.T + ") " + i.T + ")")
+	case "str": // str(b): the string with the bytes of byte slice b (value at this heap)
+		v := sc.eval(e.Args[0])
+		if v.K == VStr {
+			return v
+		}
+		if v.K != VSlice {
+			sc.fail("str() of %s", v.K)
+		}
+		h := st.heapTermIn(sc.cur, "elem:uint8", 2, "Int")
+		return Value{K: VStr, T: fmt.Sprintf("(bytes_str (select %s %s) %s %s)", h, v.Arr, v.Off, v.Len), Ty: types.Typ[types.String]}
+	case "intat": // intat(a, i): element i of the []int backing array a
+		a, i := sc.eval(e.Args[0]), sc.eval(e.Args[1])
+		h := st.heapTermIn(sc.cur, "elem:int", 2, "Int")
+		return intV("(select (select " + h + " " + a.T + ") " + i.T + ")")
+	case "farr": // farr(slice, "field"): SMT array of one field of a slice of structs
+		v := sc.eval(e.Args[0])
+		if v.K != VSlice || len(e.Args) != 2 || e.Args[1].Op != "str" {
+			sc.fail("farr(slice, \"field\") expected")
+		}
+		et := v.Ty.Underlying().(*types.Slice).Elem()
+		stt, ok := et.Underlying().(*types.Struct)
+		if !ok {
+			sc.fail("farr of non-struct elements")
+		}
+		for i := 0; i < stt.NumFields(); i++ {
+			if stt.Field(i).Name() == e.Args[1].Val {
+				fk := kindOf(stt.Field(i).Type())
+				if fk >= VSlice {
+					sc.fail("farr of aggregate field")
+				}
+				h := st.heapTermIn(sc.cur, "elem:"+typeKey(et)+"."+e.Args[1].Val, 2, scalarSort(fk))
+				return Value{K: VArray, T: "(select " + h + " " + v.Arr + ")", Ty: types.NewArray(stt.Field(i).Type(), 0)}
+			}
+		}
+		sc.fail("farr: no field %s", e.Args[1].Val)
 	case "allocated_at_entry":
 		a := sc.eval(e.Args[0])
 		return boolV(fmt.Sprintf("(and (< 0 %s) (< %s %s))", a.T, a.T, sc.brkOld()))
